@@ -1,54 +1,10 @@
 #![no_main]
 //! C04: coverage-guided framing. Input bytes -> (chunk schedule, end-of-stream position, packets); oracle of props/c04.rs.
 use libfuzzer_sys::fuzz_target;
-use zvtverif::props::c04::{check_stream, StreamCase};
+use zvtverif::props::c04::{case_from_fuzz, check_stream};
 
 fuzz_target!(|data: &[u8]| {
-    if data.len() < 4 {
-        return;
-    }
-    let nchunks = (data[0] % 5) as usize;
-    let eof_sel = data[1];
-    let mut pos = 2;
-    let mut chunks = vec![];
-    for _ in 0..nchunks {
-        if pos >= data.len() {
-            break;
-        }
-        chunks.push(1 + (data[pos] % 17) as usize);
-        pos += 1;
-    }
-    // packets: [class][instr][len-selector][body bytes taken from the input]
-    let mut packets = vec![];
-    while pos + 3 <= data.len() && packets.len() < 5 {
-        let (c, i, sel) = (data[pos], data[pos + 1], data[pos + 2]);
-        pos += 3;
-        let want = match sel % 8 {
-            0 => 0usize,
-            1 => 254,
-            2 => 255,
-            3 => 256,
-            _ => (sel as usize) % 40,
-        };
-        let body: Vec<u8> = (0..want).map(|k| data.get(pos + k % 7).copied().unwrap_or(k as u8)).collect();
-        pos += want.min(7);
-        let mut p = vec![c, i];
-        if want < 255 && sel % 16 != 15 {
-            p.push(want as u8);
-        } else {
-            p.push(0xff);
-            p.push((want & 0xff) as u8);
-            p.push((want >> 8) as u8);
-        }
-        p.extend(body);
-        packets.push(zvtverif::engine::hex(&p));
-    }
-    if packets.is_empty() {
-        return;
-    }
-    let total: usize = packets.iter().map(|p| p.len() / 2).sum();
-    let eof = if eof_sel % 3 == 0 { Some(eof_sel as usize * (total + 1) / 256) } else { None };
-    let case = StreamCase { packets, chunks, eof };
+    let Some(case) = case_from_fuzz(data) else { return };
     if let Err(v) = check_stream(&case) {
         eprintln!("FUZZ-VIOLATION {}\n{}\n{}", v.sig, v.detail, v.input);
         std::process::abort();
